@@ -299,7 +299,7 @@ func init() {
 			"every stored validator has positive delegator shares (staking invariant)",
 		},
 		NotDecided: []string{
-			"that the validator record handed to the staking keeper's Delegate is the currently stored one (a record cached across iterations of FeeRefund goes stale after the first Delegate): seeded change C05-fee-refund-reuses-stale-validator is not caught",
+			"that the validator record handed to the staking keeper's Delegate is a currently stored one: decided at the call sites of ReturnSlashedTokens and WithdrawTip (precondition of the assumed Delegate contract), undecided in FeeRefund and AddAmountToStake (a record cached across iterations of FeeRefund goes stale after the first Delegate): seeded change C05-fee-refund-reuses-stale-validator is not caught",
 			"per-backer records of a second fee payment for the same dispute (the earlier records are appended: needs a sum-over-concatenation lemma)",
 			"EscrowReporterStake is under contract for its record accounting only (C11); WithdrawTip: the staked amount is delegated from the bonded source to a bonded validator and the same amount leaves the tips escrow for the bonded pool (that Delegate itself adds it to the ledger is the assumed staking contract); for ReturnSlashedTokens / FeeRefund / AddAmountToStake the decided part is: every Delegate takes the bonded pool as token source with subtractAccount=false (matching the dispute module's transfer into the bonded pool), without a winning purse every backer gets back exactly what was taken, the record is consumed; the pro-rata amounts with a purse or a partial fee refund (at most one unit lost per entry) are not decided",
 			"FeeRefund and AddAmountToStake index the list of bonded validators at 0 without a length check (a chain without bonded validators): panic obligation not claimed",
